@@ -118,6 +118,9 @@ class Prop:
             r = impl.get('r', '')
             return ok_str(r) or not any(x in r for x in ('UnsupportedVersion', 'PacketTypeMismatch'))
         return True
+    def group_oracle(self, recs):
+        """cross-case checks; recs = [(line, impl, model)] of the relevant cases; returns [(line, why)]"""
+        return []
     def neighbours(self, g, line):
         """cases near a mismatching one, for the widened search"""
         out = []
@@ -629,6 +632,7 @@ class Engine:
         mism, fails, known_hit, nrel = [], [], {}, 0
         seen = set()
         distinct = 0
+        recs = []
         for i, line in zip(ids, lines):
             a, m = impl.get(i), model.get(i)
             if a is None or m is None:
@@ -640,6 +644,7 @@ class Engine:
             if not self.pd.relevant(line, a, m):
                 continue
             nrel += 1
+            recs.append((line, a, m))
             if stats is not None:
                 self.account(stats, line, a)
             hsh = hashlib.sha1(line.encode()).digest()
@@ -666,6 +671,16 @@ class Engine:
                     else:
                         mism.append(dict(case=line, profile=prof, impl_projection=repr(pa)[:3000],
                                          model_projection=repr(pm)[:3000], impl=aa, model=m))
+        bymodel = {line: m for line, _, m in recs}
+        byimpl = {line: a for line, a, _ in recs}
+        for line, why in self.pd.group_oracle(recs):
+            m = bymodel.get(line, {})
+            kf = [k for k in self.known if k.get('class') in classes_of(m)]
+            if kf:
+                for k in kf:
+                    known_hit.setdefault(k['id'], '%s: %s' % (k['id'], k['text']))
+            else:
+                fails.append(dict(case=line, profile='debug', why=[why], impl=byimpl.get(line, {}), model=m))
         return dict(mism=mism, fails=fails, known=known_hit, relevant=nrel, distinct=distinct)
 
     def account(self, stats, line, a):
